@@ -44,6 +44,17 @@ func toInts(b []byte) []int {
 	return out
 }
 
+// call runs one of the pure conversion functions; a panic of the function under test is caught and
+// reported by the caller as a violation (totality on all keys is part of the bijection claim).
+func call(f func([]byte) []byte, in []byte) (out []byte, panicked any) {
+	defer func() {
+		if r := recover(); r != nil {
+			out, panicked = nil, r
+		}
+	}()
+	return f(in), nil
+}
+
 func same(b []byte, want []int) bool { return reflect.DeepEqual(toInts(b), append([]int{}, want...)) }
 
 // exact returns a copy whose capacity equals its length: a write past the end panics
@@ -54,13 +65,30 @@ func exact(b []byte) []byte {
 	return out
 }
 
+// short renders a key; long keys are abbreviated.
+func short(x []int) string {
+	if len(x) <= 40 {
+		return fmt.Sprint(x)
+	}
+	return fmt.Sprintf("[len %d: %v ... %v]", len(x), x[:8], x[len(x)-8:])
+}
+
 func runCases(in string, sum *tl.Summary) {
 	var cases []kase
 	tl.ReadJSON(in, &cases)
 	seen := map[string]bool{}
 	bad := func(c kase, fn string, got []byte, want []int) {
-		sum.Violate(fmt.Sprintf("%s(%v): implementation gives %v, specification %v", fn, c.Hex, toInts(got), want),
+		sum.Violate(fmt.Sprintf("%s(%s): implementation gives %s, specification %s", fn, short(c.Hex), short(toInts(got)), short(want)),
 			tl.M{"case": c, "fn": fn, "got": toInts(got), "want": want})
+	}
+	// run executes fn on in; a panic is a violation
+	run := func(c kase, fn string, f func([]byte) []byte, in []byte) ([]byte, bool) {
+		out, p := call(f, in)
+		if p != nil {
+			sum.Violate(fmt.Sprintf("%s(%s) panicked: %v", fn, short(toInts(in)), p), tl.M{"case": c, "fn": fn, "panic": fmt.Sprint(p)})
+			return nil, false
+		}
+		return out, true
 	}
 	for _, c := range cases {
 		hex := toBytes(c.Hex)
@@ -71,23 +99,23 @@ func runCases(in string, sum *tl.Summary) {
 			sum.Distinct++
 		}
 		// HEX -> COMPACT
-		got := trie.VerifHexToCompact(exact(hex))
+		got, ok := run(c, "hexToCompact", trie.VerifHexToCompact, exact(hex))
 		sum.Count("hexToCompact")
-		if !same(got, c.Compact) {
+		if ok && !same(got, c.Compact) {
 			bad(c, "hexToCompact", got, c.Compact)
 		}
 		// in place (needs room for the flag byte: a non-empty buffer)
 		if len(hex) > 0 {
 			buf := exact(hex)
-			got = trie.VerifHexToCompactInPlace(buf)
+			got, ok = run(c, "hexToCompactInPlace", trie.VerifHexToCompactInPlace, buf)
 			sum.Count("hexToCompactInPlace")
-			if !same(got, c.Compact) {
+			if ok && !same(got, c.Compact) {
 				bad(c, "hexToCompactInPlace", got, c.Compact)
 			}
 			// a buffer with spare capacity and trailing foreign bytes (the stacktrie reuses key buffers)
 			big := append(exact(hex), 0xAA, 0xBB, 0x10)
-			got = trie.VerifHexToCompactInPlace(big[:len(hex)])
-			if !same(got, c.Compact) {
+			got, ok = run(c, "hexToCompactInPlace", trie.VerifHexToCompactInPlace, big[:len(hex)])
+			if ok && !same(got, c.Compact) {
 				bad(c, "hexToCompactInPlace(spare capacity)", got, c.Compact)
 			}
 			if big[len(hex)] != 0xAA || big[len(hex)+1] != 0xBB || big[len(hex)+2] != 0x10 {
@@ -95,18 +123,18 @@ func runCases(in string, sum *tl.Summary) {
 			}
 		}
 		// COMPACT -> HEX on the specification's compact form (independent of the Go encoder)
-		back := trie.VerifCompactToHex(toBytes(c.Compact))
+		back, ok := run(c, "compactToHex", trie.VerifCompactToHex, toBytes(c.Compact))
 		sum.Count("compactToHex")
-		if !same(back, c.Hex) || !same(back, c.Back) {
+		if ok && (!same(back, c.Hex) || !same(back, c.Back)) {
 			bad(c, "compactToHex", back, c.Hex)
 		}
 		if trie.VerifHasTerm(hex) != c.Leaf {
 			sum.Violate(fmt.Sprintf("hasTerm(%v) = %v, specification %v", c.Hex, !c.Leaf, c.Leaf), tl.M{"case": c, "fn": "hasTerm"})
 		}
 		if c.Even {
-			kb := trie.VerifHexToKeybytes(exact(hex))
+			kb, ok := run(c, "hexToKeybytes", trie.VerifHexToKeybytes, exact(hex))
 			sum.Count("hexToKeybytes")
-			if !same(kb, c.Keybytes) {
+			if ok && !same(kb, c.Keybytes) {
 				bad(c, "hexToKeybytes", kb, c.Keybytes)
 			}
 			// KEYBYTES -> HEX always appends the terminator
@@ -114,16 +142,16 @@ func runCases(in string, sum *tl.Summary) {
 			if !c.Leaf {
 				want = append(want, 16)
 			}
-			h2 := trie.VerifKeybytesToHex(toBytes(c.Keybytes))
+			h2, ok := run(c, "keybytesToHex", trie.VerifKeybytesToHex, toBytes(c.Keybytes))
 			sum.Count("keybytesToHex")
-			if !same(h2, want) {
+			if ok && !same(h2, want) {
 				bad(c, "keybytesToHex", h2, want)
 			}
 			if len(c.Keybytes) > 0 {
 				dst := make([]byte, 2*len(c.Keybytes))
-				h3 := trie.VerifWriteHexKey(dst, toBytes(c.Keybytes))
+				h3, ok := run(c, "writeHexKey", func(k []byte) []byte { return trie.VerifWriteHexKey(dst, k) }, toBytes(c.Keybytes))
 				sum.Count("writeHexKey")
-				if !same(h3, want[:len(want)-1]) {
+				if ok && !same(h3, want[:len(want)-1]) {
 					bad(c, "writeHexKey", h3, want[:len(want)-1])
 				}
 			}
@@ -136,28 +164,61 @@ func runCases(in string, sum *tl.Summary) {
 	sum.Rule = "every HEX key printed by TLC for the domain of the MC configuration (all nibble strings up to FullLen over 0..15 and up to SparseLen over {0,1,15}, with and without terminator) executed on all conversion functions; distinct = distinct HEX keys"
 }
 
+// pickLen draws a key length in nibbles: short keys densely, the usual 64/128, and the lengths at
+// which 8-bit and 9-bit counters of an implementation would wrap (compact keys of 127..129 and
+// 255..257 bytes, byte keys of 126..130 and 254..258 bytes), up to 1030 nibbles.
+func pickLen(r interface{ Intn(int) int }) int {
+	switch r.Intn(10) {
+	case 0:
+		return r.Intn(9)
+	case 1:
+		return 62 + r.Intn(4)
+	case 2:
+		return 126 + r.Intn(4)
+	case 3, 4:
+		return 250 + r.Intn(12) // 250..261
+	case 5:
+		return 506 + r.Intn(12) // 506..517
+	case 6:
+		return 1020 + r.Intn(10)
+	case 7:
+		return r.Intn(700)
+	default:
+		return r.Intn(70)
+	}
+}
+
 func runRecord(path string, seed int64, n int, sum *tl.Summary) {
 	r := tl.Rand(seed)
 	tr := tl.NewTrace(path)
 	defer tr.Close()
 	shapes := map[string]bool{}
-	emit := func(fn string, in, out []byte) {
+	// do runs fn on a private copy of in, logs <<fn, in, out>> and returns the buffer the function returned
+	// (not a copy: the chains below keep working on returned buffers)
+	do := func(fn string, f func([]byte) []byte, in []byte) []byte {
+		arg := exact(in)
+		out, p := call(f, arg)
+		if p != nil {
+			sum.Violate(fmt.Sprintf("%s(%s) panicked: %v", fn, short(toInts(in)), p), tl.M{"fn": fn, "in": toInts(in), "panic": fmt.Sprint(p)})
+			return nil
+		}
 		tr.Emit(tl.M{"fn": fn, "in": toInts(in), "out": toInts(out)})
 		sum.Count(fn)
+		return out
+	}
+	inPlace := func(buf []byte) []byte { // on the buffer itself
+		in := exact(buf)
+		out, p := call(trie.VerifHexToCompactInPlace, buf)
+		if p != nil {
+			sum.Violate(fmt.Sprintf("hexToCompactInPlace(%s) panicked: %v", short(toInts(in)), p), tl.M{"fn": "hexToCompactInPlace", "in": toInts(in)})
+			return nil
+		}
+		tr.Emit(tl.M{"fn": "hexToCompactInPlace", "in": toInts(in), "out": toInts(out)})
+		sum.Count("hexToCompactInPlace")
+		return out
 	}
 	for i := 0; i < n; i++ {
-		// length classes: 0..8 densely, around 64 (full keys), around 128 (storage paths) and random
-		var ln int
-		switch r.Intn(6) {
-		case 0:
-			ln = r.Intn(9)
-		case 1:
-			ln = 62 + r.Intn(4)
-		case 2:
-			ln = 126 + r.Intn(4)
-		default:
-			ln = r.Intn(70)
-		}
+		ln := pickLen(r)
 		hex := make([]byte, ln)
 		for j := range hex {
 			switch r.Intn(5) {
@@ -178,22 +239,48 @@ func runRecord(path string, seed int64, n int, sum *tl.Summary) {
 			shapes[shape] = true
 			sum.Distinct++
 		}
-		c := trie.VerifHexToCompact(exact(hex))
-		emit("hexToCompact", hex, c)
-		if len(hex) > 0 {
-			emit("hexToCompactInPlace", hex, trie.VerifHexToCompactInPlace(exact(hex)))
+		c := do("hexToCompact", trie.VerifHexToCompact, hex)
+		if c == nil {
+			continue
 		}
-		emit("compactToHex", c, trie.VerifCompactToHex(exact(c)))
+		cin := exact(c) // the compact key as a value
+		if len(hex) > 0 {
+			inPlace(exact(hex))
+		}
+		// chain 1: decode, encode the RETURNED slice in place, decode the same compact key again
+		back := do("compactToHex", trie.VerifCompactToHex, cin)
+		if len(back) > 0 {
+			inPlace(back)
+		}
+		do("compactToHex", trie.VerifCompactToHex, cin)
+		// chain 2: encode, scribble over the returned buffer, encode the same key again
+		for k := range c {
+			c[k] ^= 0xa5
+		}
+		do("hexToCompact", trie.VerifHexToCompact, hex)
 		if ln%2 == 0 {
-			kb := trie.VerifHexToKeybytes(exact(hex))
-			emit("hexToKeybytes", hex, kb)
-			emit("keybytesToHex", kb, trie.VerifKeybytesToHex(exact(kb)))
-			if len(kb) > 0 {
-				emit("writeHexKey", kb, trie.VerifWriteHexKey(make([]byte, 2*len(kb)+r.Intn(3)), kb))
+			kb := do("hexToKeybytes", trie.VerifHexToKeybytes, hex)
+			if kb != nil {
+				kin := exact(kb)
+				h2 := do("keybytesToHex", trie.VerifKeybytesToHex, kin)
+				for k := range h2 {
+					h2[k] = 0x77
+				}
+				do("keybytesToHex", trie.VerifKeybytesToHex, kin)
+				if len(kin) > 0 {
+					dst := make([]byte, 2*len(kin)+r.Intn(3))
+					do("writeHexKey", func(k []byte) []byte { return trie.VerifWriteHexKey(dst, k) }, kin)
+				}
 			}
 		}
 		// a canonical compact key drawn directly (not an image of the Go encoder)
 		cl := 1 + r.Intn(34)
+		switch r.Intn(4) {
+		case 0:
+			cl = 126 + r.Intn(6) // 126..131 bytes
+		case 1:
+			cl = 254 + r.Intn(6) // 254..259 bytes
+		}
 		cc := make([]byte, cl)
 		r.Read(cc)
 		flag := byte(r.Intn(4))
@@ -202,21 +289,110 @@ func runRecord(path string, seed int64, n int, sum *tl.Summary) {
 		} else {
 			cc[0] = flag << 4
 		}
-		hx := trie.VerifCompactToHex(exact(cc))
-		emit("compactToHex", cc, hx)
-		emit("hexToCompact", hx, trie.VerifHexToCompact(exact(hx)))
+		if hx := do("compactToHex", trie.VerifCompactToHex, cc); hx != nil {
+			do("hexToCompact", trie.VerifHexToCompact, hx)
+		}
 		sum.Evaluations++
 		if i < 2 {
-			sum.Sample(tl.M{"hex": toInts(hex), "compact": toInts(c)})
+			sum.Sample(tl.M{"hex": short(toInts(hex)), "compact": short(toInts(cin))})
 		}
 	}
 	sum.Traces = 1
 	sum.Steps = tr.N
-	sum.Rule = "seeded random HEX keys (lengths 0..8, ~64, ~128, random <70; with/without terminator) and random canonical COMPACT keys; every call of the real functions logged as <<fn,in,out>>; distinct = distinct (length, terminator) shapes"
+	sum.Rule = "seeded random HEX keys (lengths 0..8, ~64, ~128, 250..261, 506..517, 1020..1029, random <700; with/without terminator) and random canonical COMPACT keys (1..34, 126..131, 254..259 bytes); call chains on returned buffers (decode, encode the result in place, decode again; encode, overwrite the result, encode again); every call logged as <<fn,in,out>>; a panic is a violation; distinct = distinct (length, terminator) shapes"
+}
+
+// ---------------------------------------------------------------- buffer machine (R)
+
+type mstep struct {
+	Op  string  `json:"op"`
+	I   int     `json:"i"`
+	Mem [][]int `json:"mem"`
+}
+
+// runMem replays the behaviours of HexPrefixMem.tla on real Go slices: conversions return whatever
+// slice the real function returns (kept, not copied), InPlace/Scribble/Push act on the kept slices,
+// and after every step ALL buffers are compared with the specification.
+func runMem(in string, sum *tl.Summary) {
+	var bs [][]mstep
+	tl.ReadJSON(in, &bs)
+	seen := map[string]bool{}
+	for bi, b := range bs {
+		var bufs [][]byte
+		ops := []string{}
+		for si, st := range b {
+			i := st.I - 1
+			var p any
+			switch st.Op {
+			case "New":
+				bufs = append(bufs, exact(toBytes(st.Mem[0])))
+			case "hexToCompact":
+				var out []byte
+				out, p = call(trie.VerifHexToCompact, bufs[i])
+				bufs = append(bufs, out)
+			case "compactToHex":
+				var out []byte
+				out, p = call(trie.VerifCompactToHex, bufs[i])
+				bufs = append(bufs, out)
+			case "hexToCompactInPlace":
+				bufs[i], p = call(trie.VerifHexToCompactInPlace, bufs[i])
+			case "Scribble":
+				for k := range bufs[i] {
+					if bufs[i][k] == 1 {
+						bufs[i][k] = 15
+					} else {
+						bufs[i][k] = 1
+					}
+				}
+			case "Push":
+				m := st.Mem[i]
+				bufs[i] = append(bufs[i], byte(m[len(m)-1]))
+			default:
+				tl.Fatal("unknown op %q", st.Op)
+			}
+			ops = append(ops, fmt.Sprintf("%s(%d)", st.Op, st.I))
+			sum.Steps++
+			sum.Count(st.Op)
+			if p != nil {
+				sum.Violate(fmt.Sprintf("after %v: %s panicked: %v", ops, st.Op, p), tl.M{"behaviour": b[:si+1]})
+				break
+			}
+			got := make([][]int, len(bufs))
+			for k := range bufs {
+				got[k] = toInts(bufs[k])
+			}
+			if !reflect.DeepEqual(norm(got), norm(st.Mem)) {
+				sum.Violate(fmt.Sprintf("after %v (first buffer %v): the buffers are %v, specification %v", ops, b[0].Mem[0], got, st.Mem),
+					tl.M{"behaviour": b[:si+1], "got": got})
+				break
+			}
+		}
+		sum.Evaluations++
+		key := fmt.Sprint(ops, b[0].Mem)
+		if !seen[key] {
+			seen[key] = true
+			sum.Distinct++
+		}
+		if bi%500 == 3 {
+			sum.Sample(tl.M{"first": b[0].Mem[0], "ops": ops})
+		}
+		if len(sum.Violations) >= 20 {
+			break
+		}
+	}
+	sum.Rule = "every behaviour of the buffer machine HexPrefixMem (conversions returning buffers, in-place encoding, overwriting and appending to returned buffers; bounded depth) executed on real slices without copying results; all buffers compared after every step; distinct = distinct behaviours"
+}
+
+func norm(x [][]int) [][]int {
+	out := make([][]int, len(x))
+	for i := range x {
+		out[i] = append([]int{}, x[i]...)
+	}
+	return out
 }
 
 func main() {
-	mode := flag.String("mode", "cases", "cases|record")
+	mode := flag.String("mode", "cases", "cases|mem|record")
 	in := flag.String("in", "", "cases json")
 	trace := flag.String("trace", "trace.ndjson", "output trace")
 	out := flag.String("out", "summary.json", "summary output")
@@ -228,6 +404,9 @@ func main() {
 	case "cases":
 		sum.Mode = "replay"
 		runCases(*in, sum)
+	case "mem":
+		sum.Mode = "replay"
+		runMem(*in, sum)
 	case "record":
 		runRecord(*trace, seed, *n, sum)
 	default:
